@@ -183,7 +183,9 @@ def boot_check(rec, step, model_bytes):
                   'rules of shipped recipe %s are refused by update_quantization_recipe: %s'
                   % (base, harness.exc_class(e)))
       return
-    if jdigest(q_api.get_quantization_recipe()) != jdigest(exported):
+    # compared on the documented rule fields only: an implementation may keep annotations of its
+    # own (comments, ids) that a rule entered through the API does not have
+    if jdigest(_c11._export_key(q_api.get_quantization_recipe())) != jdigest(_c11._export_key(exported)):
       rec.violate('C12/shipped-recipe/' + base, step,
                   'shipped recipe %s loads to a different recipe than entering its rules through '
                   'update_quantization_recipe' % base)
